@@ -33,6 +33,13 @@ def gen(rng, tier):
             trajs = trajs[:1]
         dts = [d for d in ('int8', 'int16', 'int32', 'int64') if G.fits(trajs, d)]
         yield {'trajs': trajs, 'lag': lag, 'form': form, 'dtype': rng.choice(dts), 'alpha': akind}
+    for _ in range(G.budget(24) if tier == 'quick' else 600):      # narrow integer types, long runs, > 128 states
+        trajs, dtypes, tag = G.narrow_set(rng)
+        yield {'trajs': trajs, 'lag': rng.choice([1, 2, 3]), 'form': 'loa', 'dtype': dtypes[0], 'dtypes': dtypes, 'alpha': tag}
+    for _ in range(G.budget(10) if tier == 'quick' else 200):      # N single-frame trajectories as an (N,1) array
+        labs, akind = G.alphabet(rng, k=rng.randint(2, 4))
+        trajs = [[rng.choice(labs)] for _ in range(rng.randint(2, 9))]
+        yield {'trajs': trajs, 'lag': 1, 'form': rng.choice(['arr2', 'loa', 'lol']), 'dtype': 'int64', 'alpha': 'single-frames'}
     if tier == 'thorough':
         labs = [0, 1, 2]
         for total in range(1, 9):
@@ -76,9 +83,9 @@ def shrink(case):
 def impl(case):
     import msmhelper as mh
     from implutil import build, canon
-    data = build(case['form'], case['trajs'], [case['dtype']])
+    data = build(case['form'], case['trajs'], case.get('dtypes') or [case['dtype']])
     T, st = mh.msm.estimate_markov_model(data, case['lag'])
-    data2 = build(case['form'], case['trajs'], [case['dtype']])
+    data2 = build(case['form'], case['trajs'], case.get('dtypes') or [case['dtype']])
     T2, st2 = mh.StateTraj(data2).estimate_markov_model(case['lag'])
     return {'T': canon(T), 'st': canon(st), 'T2': canon(T2), 'st2': canon(st2)}
 
